@@ -710,3 +710,8 @@ e: *A
         assert_eq!(report.anchors, 1);
     }
 }
+
+// verification hook: bounded-model-checking harnesses (compiled only by Kani, `--cfg kani`)
+#[cfg(kani)]
+#[path = "/verif/harness/h_budget.rs"]
+mod verif;
